@@ -1,6 +1,7 @@
 package gen
 
 import (
+	"encoding/json"
 	"fmt"
 	"strings"
 
@@ -35,6 +36,15 @@ func (g G) RefWorld(nPaths int, simple bool) m.WorldM {
 			p.Files = append(p.Files, m.FileM{Name: []string{"main.tf", "b.tf"}[fi], Text: g.refConfig(root, paths, pi, simple)})
 		}
 		w.Paths = append(w.Paths, p)
+	}
+	if nPaths >= 3 {
+		// the third path is a twin of the first (same schema, same files, another directory):
+		// its origins have the same file names and ranges and point at the same declarations
+		b, _ := json.Marshal(w.Paths[0])
+		var twin m.PathM
+		_ = json.Unmarshal(b, &twin)
+		twin.Path = paths[2]
+		w.Paths[2] = twin
 	}
 	return w
 }
